@@ -301,6 +301,8 @@ def c06(tier):
     for rep in range(24 if full else 6):
         p = rnd.choice(busy)
         splan.append("%s|infinite|stale_thread|%d|%s|threads" % (p["fen"], rnd.choice([30, 100, 250]), rnd.choice(["depth 1", "depth 2", "movetime 10", "nodes 300"])))
+    # every fifth schedule follows an earlier `go` of the same session on a finished game (mate / stalemate on the board)
+    splan = [l + "+terminal" if i % 5 == 4 else l for i, l in enumerate(splan)]
     v2, c2, sh2 = schedules(ck, exe, splan)
     take(ck, "C06", v2, others)
     if c2.get("thread_runs", 0) == 0 or c2.get("isready_runs", 0) == 0 or cnt.get("stop_runs", 0) == 0:
